@@ -31,7 +31,9 @@ try:
         viol = [l for l in r.stdout.splitlines() if l.startswith("VIOLATION")]
         fps = re.findall(r"fingerprint=(\{.*\})", r.stdout)
         results[c] = dict(exit=r.returncode, violations=len(viol), fingerprints=fps[:5], summary=r.stdout.strip().splitlines()[-1] if r.stdout.strip() else r.stderr[-300:])
-        print(f"  {c}: exit={r.returncode} violations={len(viol)} {fps[:2]}")
+        print(f"  {c}: exit={r.returncode} violations={len(viol)} {fps[:2]}", flush=True)
+        if r.returncode == 1 and os.environ.get("SEED_STOP_AT_FIRST"):
+            break
 finally:
     sh(f"git -C {wt} checkout -q -- .")
     sh(f"rm -rf {rp}")
